@@ -8,6 +8,7 @@
 package aclgen
 
 import (
+	"errors"
 	"fmt"
 	"runtime/debug"
 	"testing"
@@ -102,8 +103,14 @@ type World struct {
 	Steps   []Step
 	M       Model
 	// AcceptorSign: records get the network acceptor's identity and signature.
-	AcceptorSign  bool
-	BuilderPanics int
+	AcceptorSign   bool
+	BuilderPanics  int
+	ForgedAccepted int
+	pendingInvite  *InviteInfo
+	// Stuck[i]: account i's own list rejected a record every validating replica accepted
+	// because it could not unpack the key material addressed to it (a forged record can carry
+	// a wrong key; only the addressee can notice). Its view no longer follows the log.
+	Stuck []bool
 }
 
 // Bubble runs f inside a synctest bubble (fixed fake clock) and returns its error.
@@ -157,6 +164,7 @@ func NewWorld(n int, seed uint64, acceptorSign bool) (*World, error) {
 	}
 	w.M = Model{Perm: make([]int, n), PendingJoin: make([]string, n), PendingRemove: make([]string, n), KeyGen: 1, PermAt: make([][]int, n)}
 	w.M.Perm[0] = Owner
+	w.Stuck = make([]bool, n)
 	w.snapshotModel()
 	return w, nil
 }
@@ -212,20 +220,40 @@ func WrapRaw(raw *consensusproto.RawRecord) (*consensusproto.RawRecordWithId, er
 // accepted=false if the first list rejects it; a record accepted by one full-validating
 // list and rejected by another is reported as an error (replicas must agree).
 func (w *World) Submit(rec *consensusproto.RawRecordWithId) (accepted bool, err error) {
+	accepted, _, err = w.submit(rec)
+	return
+}
+
+func (w *World) submit(rec *consensusproto.RawRecordWithId) (accepted bool, rejectErr error, err error) {
 	var firstErr error
+	first := true
+	var newlyStuck []int
 	for i, l := range w.Lists {
+		if w.Stuck[i] {
+			continue
+		}
 		e := l.AddRawRecord(CloneRec(rec))
-		if i == 0 {
+		if first {
 			firstErr = e
-		} else if (e == nil) != (firstErr == nil) {
-			return false, fmt.Errorf("replicas disagree on record %s: account0 err=%v, account%d err=%v", rec.Id, firstErr, i, e)
+			first = false
+			continue
+		}
+		if (e == nil) != (firstErr == nil) {
+			if firstErr == nil && (errors.Is(e, list.ErrFailedToDecrypt) || errors.Is(e, list.ErrIncorrectReadKey)) {
+				newlyStuck = append(newlyStuck, i)
+				continue
+			}
+			return false, nil, fmt.Errorf("replicas disagree on record %s: first err=%v, account%d err=%v", rec.Id, firstErr, i, e)
 		}
 	}
 	if firstErr != nil {
-		return false, nil
+		return false, firstErr, nil
+	}
+	for _, i := range newlyStuck {
+		w.Stuck[i] = true
 	}
 	w.Records = append(w.Records, rec)
-	return true, nil
+	return true, nil, nil
 }
 
 // CloneRec deep-copies a raw record (lists may keep references to the bytes).
@@ -283,6 +311,10 @@ func (w *World) Apply(op Op) (st Step, err error) {
 func (w *World) apply(op Op) (Step, error) {
 	st := Step{Op: op, Index: -1}
 	a := w.acc(op.Actor)
+	if w.Stuck[a] {
+		st.BuildErr = "actor's own view is stuck"
+		return st, nil
+	}
 	t := w.acc(op.Target)
 	t2 := w.acc(op.T2)
 	l := w.Lists[a]
